@@ -61,6 +61,16 @@ if alpha then
         end
     end
 end
+if alpha then
+    while s1 do
+        for i = 1, 2 do
+            n100 = fn(aaaaaaaaaaaaaaaaaaaaaa, bbbbbbbbbbbbbbbbbbbbbb, cccccccccccccccccccccc, dddddddddddddddddddd, e)
+            n108 = fn(aaaaaaaaaaaaaaaaaaaaaaaa, bbbbbbbbbbbbbbbbbbbbbbbb, cccccccccccccccccccccccc, dddddddddddddddddddddd, e)
+            n112 = fn(aaaaaaaaaaaaaaaaaaaaaaaaa, bbbbbbbbbbbbbbbbbbbbbbbbb, ccccccccccccccccccccccccc, ddddddddddddddddddddddd, e)
+            n116 = fn(aaaaaaaaaaaaaaaaaaaaaaaaaa, bbbbbbbbbbbbbbbbbbbbbbbbbb, cccccccccccccccccccccccccc, dddddddddddddddddddddddd, e)
+        end
+    end
+end
 local w40 = fn(aaaaaaaa, bbbbbbbb, cccccccc, dd)
 local w80 = fn(aaaaaaaaaaaaaaaa, bbbbbbbbbbbbbbbb, cccccccccccccccc, dddddddddddddddd, ee)
 local w120 = fn(aaaaaaaaaaaaaaaaaaaaaaaa, bbbbbbbbbbbbbbbbbbbbbbbb, cccccccccccccccccccccccc, dddddddddddddddddddddddd, eeeeeeeeeeee)
@@ -140,6 +150,32 @@ def carrier_cases():
                 sec = "*.lua" if (len(spelling) + len(str(val))) % 2 else "*"
                 cases.append(mk("carrier", f"{opt}={val}:editorconfig:{spelling}", dict(pf, **{".editorconfig": M.editorconfig_text([(sec, kv)])}),
                                 ["."], carrier="editorconfig", spelling=spelling, **meta))
+    # indent_width when the indentation is tabs: it only enters the width of a line (nested long calls of the
+    # probe), and every carrier must hand over the same number - also an .editorconfig that sets tab_width besides
+    # indent_size (indent_size decides unless it says `tab`)
+    for val in M.NUMS:
+        want = {"indent_type": "Tabs", "indent_width": val}
+        pf = probe_files("indent_width")
+        meta = {"opt": "indent_width@tabs", "val": val, "want": want}
+        cases.append(mk("carrier", f"indent_width@tabs={val}:toml", dict(pf, **{"stylua.toml": M.toml_text(want)}), ["."], carrier="toml", **meta))
+        cases.append(mk("carrier", f"indent_width@tabs={val}:flag", pf, ["--indent-type", "Tabs", "--indent-width", str(val), "."], carrier="flag", **meta))
+        for spelling, kv in (("indent_size", {"indent_style": "tab", "indent_size": str(val)}),
+                             ("indent_size+tab_width", {"indent_style": "tab", "indent_size": str(val), "tab_width": str(val + 5)}),
+                             ("tab_width", {"indent_style": "tab", "indent_size": "tab", "tab_width": str(val)})):
+            cases.append(mk("carrier", f"indent_width@tabs={val}:editorconfig:{spelling}", dict(pf, **{".editorconfig": M.editorconfig_text([("*.lua", kv)])}),
+                            ["."], carrier="editorconfig", spelling=spelling, **meta))
+    # .editorconfig sections are per file name: two files of one directory under different sections get, each,
+    # what a stylua.toml / the flags with that file's values give
+    for k, (va, vb) in enumerate(((2, 6), (4, 3), (8, 1))):
+        fa, fb = "probe.lua", "probe_spec.lua"
+        files = {fa: PROBE, fb: M.lua_probe(70 + k)}
+        sec = [("*.lua", {"indent_style": "space", "indent_size": str(va), "quote_type": "double"}),
+               ("*_spec.lua", {"indent_style": "space", "indent_size": str(vb), "quote_type": "single"})]
+        for order in ([fa, fb], [fb, fa], ["."]):
+            cases.append(mk("carrier", f"ec-per-file:{k}:{'+'.join(order)}", dict(files, **{".editorconfig": M.editorconfig_text(sec)}), order,
+                            carrier="editorconfig", spelling="per-file-sections", opt="indent_width+quote_style", val=f"{va}/{vb}",
+                            want={"indent_type": "Spaces", "indent_width": va, "quote_style": "AutoPreferDouble"},
+                            want_by_file={"proj/" + fb: {"indent_type": "Spaces", "indent_width": vb, "quote_style": "AutoPreferSingle"}}))
     # the one value only .editorconfig can express
     want = {"column_width": M.USIZE_MAX}
     cases.append(mk("carrier", "column_width=off:editorconfig", dict(probe_files("column_width"), **{".editorconfig": M.editorconfig_text([("*", {"max_line_length": "off"})])}),
@@ -302,7 +338,8 @@ def expected_outputs(case, cfg_):
     any_err = False
     for p in lua_targets(case):
         src = case["files"][p]
-        r = M.ref_format(src, cfg_)
+        by_file = (case.get("want_by_file") or {}).get(p)
+        r = M.ref_format(src, clilib.cfg(**by_file) if by_file else cfg_)
         if r[0] == "ok":
             exp[p] = r[1].encode("utf-8")
         else:
